@@ -8,6 +8,8 @@ import (
 
 	"github.com/gopatchy/bkl"
 
+	"bklverif/fsx"
+	"bklverif/indep"
 	"bklverif/real"
 	"bklverif/tv"
 )
@@ -83,6 +85,75 @@ func fixtureSessions(repo string) (sessions []Sess, names []string) {
 			ev["outs"] = []any{}
 		}
 		sessions = append(sessions, Sess{Lines: [][]byte{J(ev)}, Meta: map[string]any{"fixture": e.Name()}})
+		names = append(names, e.Name())
+	}
+	return
+}
+
+// fixtureLayouts turns the fixtures `bkl [-P] <files>` into layouts for the
+// FILE route: every layer file of the fixture directory is taken as it is
+// (Raw) and means what the independent decoder reads from it (Docs), the
+// fixture's inputs are the command's files. The real bkl then runs on a copy
+// of the directory and TLC judges resolver, merge and evaluation together.
+func fixtureLayouts(repo string) (ls []*layout, names []string, skipped map[string]int) {
+	skipped = map[string]int{}
+	reCmd := regexp.MustCompile(`^((?:[A-Z_]+=\S+\s+)*)bkl(\s+-P)?((?:\s+[A-Za-z0-9_./-]+\.(?:yaml|yml|json|jsonl|toml))+)\s*$`)
+	ents, _ := os.ReadDir(filepath.Join(repo, "tests"))
+	for _, e := range ents {
+		dir := filepath.Join(repo, "tests", e.Name())
+		b, err := os.ReadFile(filepath.Join(dir, "cmd"))
+		if err != nil {
+			continue
+		}
+		cmd := strings.TrimSpace(string(b))
+		m := reCmd.FindStringSubmatch(cmd)
+		if m == nil || strings.Contains(cmd, "\n") {
+			skipped["command form"]++
+			continue
+		}
+		if strings.TrimSpace(m[1]) != "" {
+			skipped["environment"]++
+			continue
+		}
+		l := &layout{Fs: map[string]fsx.Entry{}, Root: "/", Skip: strings.TrimSpace(m[2]) == "-P", Tag: e.Name()}
+		files, _ := os.ReadDir(dir)
+		ok := true
+		for _, f := range files {
+			ext := strings.TrimPrefix(filepath.Ext(f.Name()), ".")
+			if f.IsDir() || f.Type()&os.ModeSymlink != 0 {
+				ok = false
+				break
+			}
+			switch ext {
+			case "yaml", "yml", "json", "jsonl", "toml":
+			default:
+				continue
+			}
+			text, err := os.ReadFile(filepath.Join(dir, f.Name()))
+			if err != nil {
+				ok = false
+				break
+			}
+			docs, dok, _, derr := indep.Decode(ext, string(text))
+			if derr != nil {
+				Fatal("independent decoder: %v", derr)
+			}
+			if !dok || !representable(docs) {
+				ok = false
+				break
+			}
+			en := fsx.Entry{Kind: "file", Raw: text}
+			for _, d := range docs {
+				en.Docs = append(en.Docs, d.([]any))
+			}
+			l.Fs["/w/"+f.Name()] = en
+		}
+		if !ok {
+			skipped["layer not representable for the independent decoder"]++
+			continue
+		}
+		l.Inputs = strings.Fields(m[3])
+		ls = append(ls, l)
 		names = append(names, e.Name())
 	}
 	return
